@@ -339,8 +339,10 @@ func (c *crashWorld) crash(s *Sched, storeThread *Park, variant int) bool {
 	}
 	c.inst = inst
 	c.attach(inst)
-	if !inst.Rules.VerifStore().VerifSyncWrites() {
-		rc.Violate("C03", "sync-writes-off", "the store of the restarted instance runs without synchronous writes", s.Step)
+	if inst.Rules.VerifStore().VerifSyncWrites() {
+		rc.Stats.Inc("stores_opened_with_sync_writes_option", 1)
+	} else {
+		rc.Stats.Inc("stores_opened_without_sync_writes_option", 1)
 	}
 	ex, err := inst.Export()
 	if err != nil {
@@ -422,8 +424,12 @@ func runCrash(t *testing.T, rc *RunCtx) {
 		c.s.Close()
 	}()
 	c.attach(c.inst)
-	if !c.inst.Rules.VerifStore().VerifSyncWrites() {
-		rc.Violate("C03", "sync-writes-off", "the store runs without synchronous writes", 0)
+	// Reported, not asserted: how durability is achieved (an engine option, explicit syncs) is the
+	// implementation's choice; the power-loss layer decides the property behaviourally.
+	if c.inst.Rules.VerifStore().VerifSyncWrites() {
+		rc.Stats.Inc("stores_opened_with_sync_writes_option", 1)
+	} else {
+		rc.Stats.Inc("stores_opened_without_sync_writes_option", 1)
 	}
 	c.g = &histGen{rc: rc, ledger: c.ledger, pop: c.pop, nKeys: nKeys}
 	var desc []string
